@@ -11,10 +11,10 @@ import gen_actors as ga
 
 STATE_FIELDS = {
     "C06": ["enabled", "trans", "init", "next_steps"],
-    "C07": ["trans", "net_len", "iter_deliv", "iter_all"],
+    "C07": ["trans", "net_len", "iter_deliv", "iter_all", "canonical_net"],
     "C09": ["enabled", "trans", "crash_budget"],
     "C15": ["enabled", "trans", "init", "next_steps"],
-    "C04": [],
+    "C04": ["canonical_net"],
 }
 SYS_FIELDS = {
     "C06": ["no_panic"],
@@ -185,8 +185,10 @@ def corpus(rng, tier, full_variants=False, nrandom=(60, 1500), wrap="none"):
         systems += ga.variants(name, actors, rng, full=full_variants or tier == "thorough")
     n = nrandom[0] if tier == "quick" else nrandom[1]
     systems += [ga.random_system(rng, "R%d" % i) for i in range(n)]
-    for s in systems:
+    for i, s in enumerate(systems):
         s["wrap"] = wrap
+        # the order of the builder calls (actors / crash budget) is immaterial
+        s["builder_order"] = i % 3
     return systems
 
 
@@ -275,10 +277,12 @@ def c04_actor_leg(res):
     run_family(res, "C04", systems, STATE_FIELDS["C04"], SYS_FIELDS["C04"], real_counts=True)
 
 
-def orl_system(sid, scripts, net_len=4, lossy=True, ignore_even=None):
+def orl_system(sid, scripts, net_len=4, lossy=True, ignore_even=None, replies=None):
+    """replies: per actor, a list of (on, dst, msg): when handed `on` the wrapped actor sends `msg` to `dst`"""
     s = ga.system(sid, [ga.actor(0) for _ in scripts], network="dup", lossy=lossy, net_len=net_len, max_states=40000)
     s["wrap"] = "orl"
     s["ignore_even"] = list(ignore_even) if ignore_even else [False] * len(scripts)
+    s["replies"] = [[dict(on=o, dst=d, msg=m) for (o, d, m) in (rs or [])] for rs in (replies or [[] for _ in scripts])]
     s["scripts"] = [[dict(dst=d, msg=m) for (d, m) in sc] for sc in scripts]
     return s
 
@@ -298,9 +302,13 @@ def c16(res):
                orl_system("lossless", [[(1, 11), (1, 12), (1, 13)], []], net_len=5, lossy=False),
                # a receiver that ignores some messages (handler leaves its state untouched and sends nothing)
                orl_system("ignoring", [[(1, 10), (1, 11)], []], ignore_even=[False, True]),
-               orl_system("ignoring3", [[(1, 11), (1, 12), (1, 13)], []], net_len=4, ignore_even=[False, True])]
+               orl_system("ignoring3", [[(1, 11), (1, 12), (1, 13)], []], net_len=4, ignore_even=[False, True]),
+               # traffic long after start: the link is idle (everything acknowledged, timer firing) before the next send
+               orl_system("idle_then_more", [[(1, 11)], []], replies=[[(100, 1, 13)], [(11, 0, 100)]])]
     if not q:
-        systems += [orl_system("three_msgs", [[(1, 11), (1, 12), (1, 13)], []], net_len=5),
+        systems += [orl_system("idle_then_two", [[(1, 11)], []], replies=[[(100, 1, 13), (100, 1, 15)], [(11, 0, 100)]]),
+                    orl_system("pingpong", [[(1, 11)], []], net_len=3, replies=[[(21, 1, 13), (23, 1, 15)], [(11, 0, 21), (13, 0, 23)]]),
+                    orl_system("three_msgs", [[(1, 11), (1, 12), (1, 13)], []], net_len=5),
                     orl_system("cross", [[(1, 11), (1, 12)], [(0, 21), (0, 22)]], net_len=5),
                     orl_system("fan", [[(1, 11), (2, 12), (1, 13), (2, 14)], [], []], net_len=5)]
         for i in range(6):
